@@ -1153,12 +1153,18 @@ class Run:
             if drop in d.defaults:
                 drop = None     # a dataclass keeps defaults as class attributes: deleting the instance attribute shows it
             raw_mode = rng.choice(["wire", "wire", "wire", "none", "short", "long"])
+            # a field WITH a pack rule holding None ("not set"): the rule must see it in every form
+            none_field = rng.choice(sorted(d.fp)) if d.fp and drop is None and rng.random() < 0.35 else None
+            if none_field is not None:
+                ctx.count(f"pack:none-in-hooked-field:{d.fp[none_field]}")
             for form in forms:
                 if form not in insts:
                     pls[form] = bts[form] = decs[form] = fuls[form] = \
                         ("err", "no-instance" if form in classes else "class-creation")
                     continue
                 obj, cls = insts[form], classes[form]
+                if none_field is not None:
+                    setattr(obj, none_field, None)
                 env = {f"v{j}": getattr(obj, n) for j, n in enumerate(d.names)}
                 env["N"] = None
                 if drop is not None:
@@ -1650,8 +1656,8 @@ def visible_converters(cls, user_hooks=()):
 
 def reannotate(run: "Run", n_cases: int):
     """a dataclass payload that declares a parent's container field again with another container (tuple -> list / set,
-    ...), over two or three levels and in several instantiation orders: every class must decode like the plain
-    definition of ITS OWN annotations"""
+    ...) or with a NON-container type (bytes, str), over two or three levels and in several instantiation orders: every
+    class must decode like the plain definition of ITS OWN annotations"""
     from ipv8.messaging.lazy_payload import VariablePayload
     from ipv8.messaging.payload_dataclass import DataClassPayload
     ctx, rng = run.ctx, run.ctx.rng
@@ -1659,17 +1665,32 @@ def reannotate(run: "Run", n_cases: int):
     pre = {"list": "co:", "tuple": "cot:", "set": "cos:"}
     for case in range(n_cases):
         levels = 3 if case % 3 == 2 else 2
-        ks = [rng.choice(["list", "tuple", "set"])]
+        ks = [rng.choice(["list", "tuple", "set", "tuple", "set"])]
         while len(ks) < levels:
-            ks.append(rng.choice([k for k in ("list", "tuple", "set") if k != ks[-1]]))
-        elem, fmt = rng.choice([(int, "arrayH-q"), (bool, "arrayH-?"), (float, "arrayH-d")])
+            ks.append(rng.choice([k for k in ("list", "tuple", "set", "bytes", "str") if k != ks[-1]]))
+        elem, afmt = rng.choice([(int, "arrayH-q"), (bool, "arrayH-?"), (float, "arrayH-d")])
+        scalar = {"bytes": (bytes, "varlenH", "bytes", b"abc"), "str": (str, "varlenHutf8", "str", "abc")}
+
+        def ann_of(k):
+            return scalar[k][0] if k in scalar else kinds[k][elem]
+
+        def fmt_of(k):
+            return scalar[k][1] if k in scalar else afmt
+
+        def ty_of(k):
+            return scalar[k][2] if k in scalar else pre[k] + elem.__name__
+
+        def value_of(k, wire=False):
+            if k in scalar:
+                return scalar[k][3]
+            return [elem(1), elem(0)] if wire else kinds[k]([elem(1), elem(0)])
         orders = {2: [[0, 1], [1, 0], [1], [0, 1, 0]], 3: [[0, 1, 2], [2, 1, 0], [2], [0, 2, 1], [1, 2]]}[levels]
         evs = orders[(case // 3) % len(orders)]
         uid = next(_uid)
         extra = rng.random() < 0.5
-        classes = [dataclasses.make_dataclass(f"R{uid}_0", [("a", int), ("t", kinds[ks[0]][elem])], bases=(DataClassPayload,))]
+        classes = [dataclasses.make_dataclass(f"R{uid}_0", [("a", int), ("t", ann_of(ks[0]))], bases=(DataClassPayload,))]
         for lv in range(1, levels):
-            cfields = [("t", kinds[ks[lv]][elem])] + ([("z", int, dataclasses.field(default=4))] if extra and lv == 1 else [])
+            cfields = [("t", ann_of(ks[lv]))] + ([("z", int, dataclasses.field(default=4))] if extra and lv == 1 else [])
             classes.append(dataclasses.make_dataclass(f"R{uid}_{lv}", cfields, bases=(classes[-1],)))
         for c in classes:
             c.__module__ = generated_module()
@@ -1678,13 +1699,13 @@ def reannotate(run: "Run", n_cases: int):
             d = Defn()
             d.uid = next(_uid)
             d.fields = [Field("prim", "q", None, ["a"], "int"),
-                        Field("prim", fmt, None, ["t"], pre[kind] + elem.__name__, kind)]
+                        Field("prim", fmt_of(kind), None, ["t"], ty_of(kind), kind if kind in kinds else "list")]
             if with_z:
                 d.fields.append(Field("prim", "q", None, ["z"], "int"))
                 d.defaults = {"z": 4}
                 d.user_init = "nokw"
             d.names = [f.names[0] for f in d.fields]
-            if kind != "list":
+            if kind in ("tuple", "set"):
                 d.fu["t"] = kind
             d.nform = {"I": {}, "C": {}, "D": {}}
             ns = namespace_for(d, "I")
@@ -1695,12 +1716,12 @@ def reannotate(run: "Run", n_cases: int):
         ctx.count(f"reannotate:{'->'.join(ks)}:order={''.join(map(str, evs))}")
         rep = {"reannotate": {"kinds": ks, "element": elem.__name__, "extra_field": extra, "events": evs}}
         for lv in evs:
-            vals = [1, kinds[ks[lv]]([elem(1), elem(0)])] + ([9] if (lv >= 1 and extra) else [])
+            vals = [1, value_of(ks[lv])] + ([9] if (lv >= 1 and extra) else [])
             r = attempt(lambda: classes[lv](*vals))
             if r[0] != "ok":
                 ctx.oracle_fail("dataclass.reannotate:binding", f"instantiating class {lv} raises {r[1]}", {**rep, "stage": "inheritance"})
-        tys = "/".join([f"[int,{pre[ks[0]]}{elem.__name__}]"] + [
-            f"[{pre[ks[lv]]}{elem.__name__}" + (",int]" if extra and lv == 1 else "]") for lv in range(1, levels)])
+        tys = "/".join([f"[int,{ty_of(ks[0])}]"] + [
+            f"[{ty_of(ks[lv])}" + (",int]" if extra and lv == 1 else "]") for lv in range(1, levels)])
         nms = "/".join(["[a,t]"] + ["[t" + (",z]" if extra and lv == 1 else "]") for lv in range(1, levels)])
 
         def effective(lv):
@@ -1708,10 +1729,13 @@ def reannotate(run: "Run", n_cases: int):
             instantiation has converted are not probed: calling them would convert them)"""
             if lv not in evs and not any(j < lv for j in evs):
                 return ""
-            probe = [1, [elem(1), elem(0)]] + ([4] if len(classes[lv].names) == 3 else [])
+            # the class whose data / generated methods class lv currently sees decides what the raw value looks like
+            seen = lv if lv in evs else max(j for j in evs if j < lv)
+            probe = [1, value_of(ks[seen], wire=True)] + ([4] if len(classes[lv].names) == 3 else [])
             r = attempt(lambda: classes[lv].from_unpack_list(*probe))
             k = type(getattr(r[1], "t", None)).__name__ if r[0] == "ok" else "error"
-            return "" if k == "list" else f"t={k}(x)"
+            natural = type(value_of(ks[seen], wire=True)).__name__
+            return "" if k == natural else f"t={k}(x)"
 
         real = "ok " + " ".join(f"{lv}:" + ",".join(canon_fmt(x) for x in classes[lv].format_list) + ";"
                                 + ",".join(classes[lv].names) + ";" + effective(lv) for lv in range(levels))
